@@ -727,6 +727,7 @@ func init() {
 			stSpecs := storeSpecs("C14", under, tier, 3, 4, func(sp *StoreScenarioSpec, o *alphabetOpts) {
 				sp.Frame = "C14.frame"
 				sp.CopyClause = true
+				sp.NoReadTwin = true
 			})
 			sh := shardsOfSpecs(stSpecs)
 			var specs []*SketchScenarioSpec
@@ -739,7 +740,7 @@ func init() {
 						}
 						m := ms.New()
 						sp := &SketchScenarioSpec{Name: fmt.Sprintf("C14/%s/%s/exact=%v", ms, k, exact), Property: "C14", Map: ms, Stores: []Kind{k, kinds[(ki+1)%len(kinds)]}, Exact: exact, Depth: 4,
-							Frame: "C14.frame", Transition: c14SketchTransition, WantTag: "copy"}
+							Frame: "C14.frame", Transition: c14SketchTransition, WantTag: "copy", NoReadTwin: true}
 						if tier == "thorough" {
 							sp.Depth = 5
 						}
